@@ -144,6 +144,7 @@ struct Case {
     std::string deck;
     std::map<std::string, long> hist;   // what changes between report steps (generator statistics)
     std::vector<int> quietRegroup;      // sim steps whose only tree change is a GRUPTREE re-parenting (no WELSPECS at all)
+    std::vector<int> quietMove;         // sim steps whose only tree change is a WELSPECS moving existing wells
 };
 
 // the group tree of one sim step, from the generated specification (independent of the Schedule)
@@ -235,9 +236,10 @@ Case makeCase(vh::Rng& rng, const std::vector<std::string>& keys, bool thorough,
     for (int g = 0; g < ng; ++g) if (!c.groups[g].nodeGroup) leaves.push_back(g);
 
     // --- the group tree changes between report steps: GRUPTREE at a later step moves an EXISTING group (with
-    //     everything below it) under another EXISTING group or FIELD.  Two thirds of these steps are "quiet":
-    //     no WELSPECS (new or moved well) and no new group in the same step, so that nothing but the GRUPTREE
-    //     record itself announces the change.
+    //     everything below it) under another EXISTING group or FIELD.  Every later step has one kind of structural
+    //     change: R = GRUPTREE re-parenting only ("quiet": no WELSPECS, no new group — nothing but the GRUPTREE record
+    //     itself announces the change), M = only WELSPECS records that move existing wells to another group,
+    //     N = only new wells, X = any mixture.
     std::vector<int> par(ng);
     for (int g = 0; g < ng; ++g) { par[g] = c.groups[g].parent; c.groups[g].parentAt.assign(c.nsteps, par[g]); }
     std::vector<char> quiet(c.nsteps, 0);
@@ -245,8 +247,10 @@ Case makeCase(vh::Rng& rng, const std::vector<std::string>& keys, bool thorough,
     auto depthOf = [&](int g) { int d = 0; for (int p = g; p >= 0; p = par[p]) ++d; return d; };
     auto below = [&](int anc, int g) { for (int p = g; p >= 0; p = par[p]) if (p == anc) return true; return false; };
     auto heightOf = [&](int g) { int h = 1; for (int x = 0; x < ng; ++x) if (below(g, x)) h = std::max(h, depthOf(x) - depthOf(g) + 1); return h; };
+    std::vector<char> kind(c.nsteps, 'X');
+    for (int s = 1; s < c.nsteps; ++s) kind[s] = "RMNX"[rng.below(4)];
     for (int s = 1; s < c.nsteps; ++s) {
-        if (!rng.coin(3, 5)) continue;
+        if (kind[s] != 'R' && !(kind[s] == 'X' && rng.coin(2, 3))) continue;
         const int nmoves = rng.coin(1, 4) ? 2 : 1;
         bool any = false;
         for (int mv = 0; mv < nmoves; ++mv) {
@@ -268,7 +272,7 @@ Case makeCase(vh::Rng& rng, const std::vector<std::string>& keys, bool thorough,
         }
         if (!any) continue;
         for (int t = s; t < c.nsteps; ++t) for (int g = 0; g < ng; ++g) c.groups[g].parentAt[t] = par[g];
-        quiet[s] = rng.coin(2, 3);
+        quiet[s] = kind[s] == 'R';
         ++c.hist[quiet[s] ? "regroup.steps_quiet" : "regroup.steps_with_other_events_allowed"];
         if (quiet[s]) c.quietRegroup.push_back(s);
     }
@@ -278,7 +282,7 @@ Case makeCase(vh::Rng& rng, const std::vector<std::string>& keys, bool thorough,
         for (int s = 0; s < c.nsteps && (movedLeaves.empty() || movedLeaves.back() != g); ++s)
             for (int p = g; p >= 0; p = c.groups[p].parentAt[s]) if (everMoved.count(p)) { movedLeaves.push_back(g); break; }
     std::vector<int> loudSteps;                          // later steps in which a WELSPECS may appear
-    for (int s = 1; s < c.nsteps; ++s) if (!quiet[s]) loudSteps.push_back(s);
+    for (int s = 1; s < c.nsteps; ++s) if (kind[s] == 'N' || kind[s] == 'X') loudSteps.push_back(s);
 
     const int nw = rng.range(1, thorough ? 12 : 9);
     std::set<std::pair<int,int>> used;
@@ -315,9 +319,10 @@ Case makeCase(vh::Rng& rng, const std::vector<std::string>& keys, bool thorough,
         {
             int g = ws.group;
             for (int s = 0; s < c.nsteps; ++s) {
-                if (s > ws.firstStep && !quiet[s] && leaves.size() > 1 && rng.coin(1, 6)) {
+                if (s > ws.firstStep && leaves.size() > 1 && ((kind[s] == 'M' && rng.coin(1, 2)) || (kind[s] == 'X' && rng.coin(1, 6)))) {
                     int g2; do { g2 = rng.pick(leaves); } while (g2 == g);
                     g = g2; ++c.hist["well.moved_to_other_group"];
+                    if (kind[s] == 'M') { ++c.hist["well.moved_in_step_with_only_WELSPECS_of_existing_wells"]; c.quietMove.push_back(s); }
                 }
                 ws.groupAt[s] = g;
             }
@@ -829,6 +834,7 @@ int runCorr(uint64_t seed, bool thorough, const std::string& outdir) {
             }
             sink.count(dt == 0.0 ? "eval.dt_zero" : "eval.dt_pos");
             if (std::count(c.quietRegroup.begin(), c.quietRegroup.end(), simStep)) sink.count("history.eval_in_step_with_only_a_GRUPTREE_reparenting");
+            if (std::count(c.quietMove.begin(), c.quietMove.end(), simStep)) sink.count("history.eval_in_step_with_only_moved_wells");
             // parent pointers and children lists of the real Schedule describe one tree
             sink.emit("sumfuns.tree " + state.substr(0, state.find(" W ")), "ok");
             for (const auto& n : nodes) {
@@ -979,6 +985,7 @@ int runProp(uint64_t seed, bool thorough, const std::string& outdir) {
         try { Rp = std::make_unique<Real>(c.deck, parser); }
         catch (const std::exception& e) { std::cerr << "generated deck rejected: " << e.what() << "\n" << c.deck << std::endl; return 3; }
         Real& R = *Rp;
+        if (std::getenv("C09_DUMP_DECKS")) { std::ofstream df(outdir + "/case" + std::to_string(ci) + ".DATA"); df << c.deck; }   // to look at a failing input
         for (const auto& kv : c.hist) histStats["generated." + kv.first] += kv.second;
         ++histStats["generated.report_steps." + std::to_string(c.nsteps)];
         const UnitConst uc = unitConst(c.units);
@@ -1026,6 +1033,7 @@ int runProp(uint64_t seed, bool thorough, const std::string& outdir) {
             const Tree T = treeAt(c, s);
             auto groupUp = [&](int g) { double f = 1.0; for (int p = g; p >= 0; p = T.parent[p]) f *= c.groups[p].gefac[s]; return f; };
             if (std::count(c.quietRegroup.begin(), c.quietRegroup.end(), s)) ++histStats["eval_in_step_with_only_a_GRUPTREE_reparenting"];
+            if (std::count(c.quietMove.begin(), c.quietMove.end(), s)) ++histStats["eval_in_step_with_only_moved_wells"];
             auto known = [&](const WellSpec& w) { return w.firstStep <= s; };
             auto flowing = [&](const WellSpec& w) {
                 auto it = wd.find(w.name);
